@@ -14,6 +14,11 @@ CHECKS = {
          "For every memoising class (17 class drivers: Network, Interacting, Spatial, Geo, Res, Climate, Tsonis, RecurrencePlot, RecurrenceNetwork, Cross/Joint plots, JointRecurrenceNetwork, InterSystem, Visibility, Surrogates, ClimateData) ALL sequences of public mutators up to the depth bound are executed on a real object, with every public query (introspected, plus argument patterns) evaluated before and after each mutator, and compared with a freshly constructed twin of the reference-model state; both the all-queries-populated and the single-query-in-isolation population modes are explored.",
          "Bounded depth and 6-10 node fixtures; mutator argument menus of 2-4 values; combinations whose meaning is undocumented (link attributes after rewiring) excluded and counted. Trusted: the reference-model update written per mutator from its documentation.",
          "7/C01"),
+ "C06": ("model_checking",
+         "explicit-state exploration of query sequences on real objects: every q1 followed by every query vs pristine objects, all ordered pairs (thorough), ordered pairs of derived climate networks over one shared data object, byte-wise input snapshots",
+         "For each of 21 class drivers and every query q1, a fresh real object executes q1 and then every public query (q1 included); each result is compared with the same query on its own pristine object, differences are delta-debugged to the culprit pair, and every caller-supplied array (constructor and query arguments) is compared byte-wise with a copy taken before the call; every ordered pair of 8 climate-network classes is built over ONE shared ClimateData and compared with construction from pristine data.",
+         "Fixtures of 6-10 nodes / 10-40 samples, one or two models per class; random queries run under reseeded generators; the thorough tier runs every ordered pair on its own fresh object.",
+         "7/C06"),
  "C08": ("exploration",
          "bounded-exhaustive enumeration of all binary matrices <=5x5 on the real kernels vs run-length reference model",
          "Every symmetric 0/1 matrix with unit diagonal up to 5x5 (realised by crafted series), every 0/1 matrix up to 3x3 (4x4 thorough) assigned as R, both storage modes, every missing-value mask and every minimal line length are run through the real RecurrencePlot kernels and compared with a direct run-length count; derived measures are recomputed from the histograms.",
